@@ -1564,4 +1564,55 @@ class C03(Prop):
         return impl.startswith("IR ") or impl.startswith("REJECTED")
 
 
-PROPS = {p.id: p for p in [C06(), C19(), C11(), C16(), C13(), C10(), C15(), C09(), C12(), C14(), C07(), C17(), C05(), C18(), C04(), C08(), C03()]}
+class C01(Prop):
+    id = "C01"
+    gens = []
+    header = 99
+    n_quick = 500
+    n_thorough = 20000
+    design_ref = "DESIGN.md §4 C01"
+    assumptions = [
+        "the emitted HLSL is read back with the project's own front end (it is inside the input language: C04) and the typed IR of the emitted text is compared with the typed IR of the source, item by item: function bodies with literal values (bit patterns), operators, conversions, call targets, argument lists and parameter directions, global initialisers, struct layouts, enum values; theorems: the comparison succeeds only if the second IR is the first with its local variables renamed one-to-one, and it never reports a difference between identical dumps",
+        "assumed, not proved: (1) the front end's reading of the emitted text is HLSL's reading of it — the emitted text has every conversion explicit, overloads resolved to distinct names and literals typed by suffix, so what is left to HLSL's rules is what C09/C10/C11/C16 cover; (2) what a function computes does not depend on the identity of its VariableIds; (3) the dump (harness/src/sdump.rs) is an injective encoding of the IR item",
+        "no evaluator is involved: 'bit-identical for all argument values' follows from the two IRs being the same program, it is not tested on values",
+        "resources are outside the property's subset: items that mention resource types are compared, but a difference there (BufferAddress lowered to ByteAddressBuffer for DirectX) is counted, not reported",
+    ]
+
+    def kind(self, case):
+        w = case.split()
+        return w[1] + " " + w[2].split(":")[0]
+
+    def model_input(self, case, impl):
+        return impl if impl.startswith("PAIRS ") else "SKIP"
+
+    def comparable(self, case, impl, model):
+        return False
+
+    def oracle(self, case, impl, model=None):
+        if impl.startswith("REREAD-REJECTED"):
+            return "the emitted text is not accepted by the front end: " + impl[16:300]
+        if impl.startswith("REREAD-PANIC"):
+            return "the front end aborts on the emitted text: " + impl[13:300]
+        if impl.startswith("MISSING"):
+            return "the emitted text does not define the same items as the source (- only in the source, + only in the text): " + impl[8:400]
+        if impl.startswith("PAIRS") and model is not None:
+            if model.startswith("DIFF"):
+                return "the emitted text means something else than the source: " + model[5:400]
+            if model.startswith("BAD"):
+                return "dump not understood: " + model[:100]
+        return None
+
+    def known_class(self, case, impl, model):
+        if impl.startswith("REREAD-REJECTED") and "failed to parse source" in impl:
+            line = impl.split(" | ", 1)[1] if " | " in impl else ""
+            if re.search(r"<[^;<>]*>\s*\(", line):
+                return "comparison-chain-read-as-template-arguments"
+        if model and re.match(r"DIFF global_\S+ word \d+: (3 vs 1|2 vs 0)$", model):
+            return "volatile-global-through-typedef"
+        return None
+
+    def nontrivial(self, case, impl):
+        return impl.startswith("PAIRS")
+
+
+PROPS = {p.id: p for p in [C06(), C19(), C11(), C16(), C13(), C10(), C15(), C09(), C12(), C14(), C07(), C17(), C05(), C18(), C04(), C08(), C03(), C01()]}
